@@ -286,6 +286,12 @@ end
 
 def isAggOrWindow (f : Ftype) : Bool := f == .window || f == .aggregate
 
+/-- `types.is_const(self.cols[uid].dtype())` -/
+def colIsConst (c : Cache) (u : Uid) : Bool :=
+  match c.col? u with
+  | some m => m.dtype.isConst
+  | none => false
+
 /-- `Cache.requires_subquery(node)`: reason, or `none` -/
 def requiresSubquery (self : Cache) (node : Ast) : Option String :=
   if !isSqlBackend self.backend then none else
@@ -310,7 +316,7 @@ def requiresSubquery (self : Cache) (node : Ast) : Option String :=
     let onLeaves := match node with | .join _ _ _ on _ => colLeaves on | _ => []
     if !self.groupBy.isEmpty then some "join with a grouped table"
     else if (how == .full || (!(isLeftOf self node) && how == .left)) &&
-        self.uuidToName.any (fun e => match self.col? e.1 with | some m => m.dtype.isConst | none => false) then
+        self.uuidToName.any (fun e => self.colIsConst e.1) then
       some "left / full join with a table containing a constant column"
     else if self.uuidToName.any (fun e => cacheFtype e.1 == some .window) then
       some "join with a table containing window function expression"
